@@ -63,12 +63,20 @@ inductive FaultNs where
   | other
   deriving Repr, DecidableEq
 
+/-- scope of the set of message names `build_interface_document` passes to `add_messages_for_methods` -/
+inductive MessageDedup where
+  | perDocument   -- one set for all services (good)
+  | perService    -- a fresh set per service: shared headers/faults yield duplicate wsdl:message definitions
+  | other
+  deriving Repr, DecidableEq
+
 structure Facts07 where
   importsIter : ImportsIter
   tierTies : TierTies
   headerMsgNs : HeaderMsgNs
   opPortType : OpPortType
   faultNs : FaultNs
+  messageDedup : MessageDedup
   /-- `spyne.const.xml.NSMAP` has no prefix of the form `s<digits>` and none called `tns` -/
   staticPrefixesClean : Bool
   deriving Repr
@@ -701,6 +709,13 @@ def bindingsLoop (F : Facts07) (I : IState) : List Svc → BSt → BSt
 
 def messagesOf (I : IState) : List Msg × List String := messagesLoop I (allMethods I) ([], [])
 
+/-- the messages of the document: `messages = set()` once, then `add_messages_for_methods` for every service -/
+def messagesFor (F : Facts07) (I : IState) : List Msg × List String :=
+  match F.messageDedup with
+  | .perDocument => messagesOf I
+  | _ => I.services.foldl (fun acc s =>
+      (acc.1 ++ (messagesLoop I s.methods ([], [])).1, acc.2 ++ (messagesLoop I s.methods ([], [])).2)) ([], [])
+
 def servicesInit (I : IState) : List Service := I.services.foldl (fun acc s => ensureService s.name acc) []
 
 def portTypesOf (F : Facts07) (I : IState) (url : String) : PtSt :=
@@ -716,8 +731,8 @@ def gen (F : Facts07) (e : Enum) (I : IState) (url : String) : Outcome Doc :=
   | .ok (schemas, tr) =>
     let pt := portTypesOf F I (stripWsdl url)
     let p1 := touchAll (Prefs.init I) tr
-    let p2 := touchAll p1 ((messagesOf I).2 ++ pt.trace ++ (bindingsOf F I).trace)
-    .ok ⟨p1.nsmap, p2.prefmap, I.tns, I.name, schemas, (messagesOf I).1, pt.services, pt.portTypes, (bindingsOf F I).bindings⟩
+    let p2 := touchAll p1 ((messagesFor F I).2 ++ pt.trace ++ (bindingsOf F I).trace)
+    .ok ⟨p1.nsmap, p2.prefmap, I.tns, I.name, schemas, (messagesFor F I).1, pt.services, pt.portTypes, (bindingsOf F I).bindings⟩
 
 /-- classes declared as a fault of some method -/
 def IState.faultIds (I : IState) : List Nat := (allMethods I).flatMap (·.faults)
@@ -806,6 +821,14 @@ def Doc.headerPartOk (d : Doc) (h : BHeader) : Bool :=
 def Doc.closed (d : Doc) : Bool :=
   d.typeRefs.all d.typeDefined && d.elemRefs.all d.elemDefined && d.msgRefs.all d.msgDefined &&
   d.portTypeRefs.all d.portTypeDefined && d.bindingRefs.all d.bindingDefined && d.headerRefs.all d.headerPartOk
+
+/-- **no definition occurs twice** in its symbol space: messages, portTypes, bindings, services in the document,
+    ports in their service, schemas per target namespace, types and elements in their schema -/
+def Doc.wellDefined (d : Doc) : Bool :=
+  (d.messages.map (·.name)).Nodup && (d.portTypes.map (·.name)).Nodup && (d.bindings.map (·.name)).Nodup &&
+  (d.services.map (·.name)).Nodup && d.services.all (fun s => (s.ports.map (·.name)).Nodup) &&
+  (d.schemas.map (·.tns)).Nodup &&
+  d.schemas.all (fun s => (s.types.map (·.name)).Nodup && (s.elements.map (·.name)).Nodup)
 
 /-- cross-namespace type references of a schema are covered by an `xs:import` -/
 def Doc.importsCover (d : Doc) : Bool :=
@@ -900,6 +923,8 @@ def IState.wfOps (I : IState) : Bool :=
     s.methods.all (fun m => match m.portType with
       | none => s.portTypes.isEmpty
       | some p => s.portTypes.contains p)) &&
+  -- services have distinct names
+  (I.services.map (·.name)).Nodup &&
   -- port type names are not shared between services and differ from the application name
   (I.services.flatMap (·.portTypes)).Nodup && !(I.services.flatMap (·.portTypes)).contains I.name
 
